@@ -55,7 +55,7 @@ theorem goodMap_spec {k : Ty} {items : List Val} (h : goodMap k items = true) :
 theorem keyGuard {k : Ty} {x : Val} (hx : isKey k x = true) : (Impl.keyModelled k && typeOf x == k) = true := by
   simp [isKey_modelled hx, isKey_typeOf hx]
 
-theorem execMem_eq (a b : Val) (h : Spec.memV a b ≠ .err) : Impl.execMem a b = Spec.memV a b := by
+theorem execMem_eq (a b : Val) (h : Spec.memV a b ≠ .stuck) : Impl.execMem a b = Spec.memV a b := by
   cases b <;> first | (exact absurd rfl h) | skip
   · rename_i k v items
     simp only [Spec.memV] at h ⊢
@@ -77,7 +77,7 @@ theorem execMem_eq (a b : Val) (h : Spec.memV a b ≠ .err) : Impl.execMem a b =
       simp only [Impl.execMem, keyGuard hc.2, if_true, set_contains_eq hall hs hc.2]
     · simp [hc] at h
 
-theorem execGet_eq (a b : Val) (h : Spec.getV a b ≠ .err) : Impl.execGet a b = Spec.getV a b := by
+theorem execGet_eq (a b : Val) (h : Spec.getV a b ≠ .stuck) : Impl.execGet a b = Spec.getV a b := by
   cases b <;> first | (exact absurd rfl h) | skip
   rename_i k v items
   simp only [Spec.getV] at h ⊢
@@ -104,7 +104,7 @@ theorem mapUpdate_eq {k v : Ty} {items : List Val} {x : Val} (hg : goodMap k ite
   simp only [Impl.mapUpdate, hgd.1, hp, hgd.2, Bool.and_self, if_true, map_update_eq hall hs hx val, kvs_eq, unkvs_eq]
   cases val <;> rfl
 
-theorem execUpdate_eq (a b c : Val) (h : Spec.updateV a b c ≠ .err) : Impl.execUpdate a b c = Spec.updateV a b c := by
+theorem execUpdate_eq (a b c : Val) (h : Spec.updateV a b c ≠ .stuck) : Impl.execUpdate a b c = Spec.updateV a b c := by
   cases b <;> first | (cases c <;> exact absurd rfl h) | skip
   · -- bool: a set
     rename_i bb
@@ -138,45 +138,44 @@ theorem execUpdate_eq (a b c : Val) (h : Spec.updateV a b c ≠ .err) : Impl.exe
       simp only [Impl.execUpdate, mapUpdate_eq hc.1.1 hc.1.2 none, rbind_ok']
     · simp [hc] at h
 
-theorem bind_ne_err'' {α β : Type} {r : Res α} {f : α → Res β} (h : r.bind f ≠ .err) : r ≠ .err := by
+theorem bind_ne_stuck'' {α β : Type} {r : Res α} {f : α → Res β} (h : r.bind f ≠ .stuck) : r ≠ .stuck := by
   intro e; subst e; exact h rfl
 
-theorem getV_ne_failed (x m w : Val) : Spec.getV x m ≠ .failed w := by
-  cases m <;> simp only [Spec.getV] <;> first | (intro h; cases h; done) | (split <;> intro h <;> cases h)
+/-- GET either applies or is stuck: it has no other outcome -/
+theorem getV_ok_or_stuck (x m : Val) : Spec.getV x m = .stuck ∨ ∃ r, Spec.getV x m = .ok r := by
+  cases m <;> simp only [Spec.getV] <;> first | (left; trivial) | (split <;> simp)
 
-theorem execGetAndUpdate_eq (a b c : Val) (h : Spec.getAndUpdateV a b c ≠ .err) :
+theorem execGetAndUpdate_eq (a b c : Val) (h : Spec.getAndUpdateV a b c ≠ .stuck) :
     Impl.execGetAndUpdate a b c = Spec.getAndUpdateV a b c := by
   unfold Spec.getAndUpdateV at h ⊢
-  have h1 := bind_ne_err'' h
-  cases hq : Spec.getV a c with
-  | err => exact absurd hq h1
-  | failed w => exact absurd hq (getV_ne_failed _ _ _)
-  | ok old =>
-    simp only [hq, rbind_ok'] at h ⊢
-    have h2 := bind_ne_err'' h
-    -- GET is defined: `c` is a well-formed map
-    cases c <;> first | (simp [Spec.getV] at hq; done) | skip
-    rename_i k v items
-    simp only [Spec.getV] at hq
-    by_cases hc' : (goodMap k items && isKey k a) = true
-    · simp only [hc', if_true, Res.ok.injEq] at hq
-      subst hq
-      rw [Bool.and_eq_true] at hc'
-      cases b <;> first | (exact absurd rfl h2) | skip
-      · rename_i y
-        simp only [Spec.updateV] at h2 ⊢
-        by_cases hc : (goodMap k items && isKey k a && typeOf y == v) = true
-        · simp only [hc, if_true, rbind_ok']
-          simp only [Impl.execGetAndUpdate, mapUpdate_eq hc'.1 hc'.2 (some y), rbind_ok']
-          cases _root_.Spec.Coll.findKV keyLt a (Spec.kvs items) <;> rfl
-        · simp [hc] at h2
-      · rename_i v'
-        simp only [Spec.updateV] at h2 ⊢
-        by_cases hc : (goodMap k items && isKey k a && v' == v) = true
-        · simp only [hc, if_true, rbind_ok']
-          simp only [Impl.execGetAndUpdate, mapUpdate_eq hc'.1 hc'.2 none, rbind_ok']
-          cases _root_.Spec.Coll.findKV keyLt a (Spec.kvs items) <;> rfl
-        · simp [hc] at h2
-    · simp [hc'] at hq
+  have h1 := bind_ne_stuck'' h
+  rcases getV_ok_or_stuck a c with hq | ⟨old, hq⟩
+  · exact absurd hq h1
+  simp only [hq, rbind_ok'] at h ⊢
+  have h2 := bind_ne_stuck'' h
+  -- GET is defined: `c` is a well-formed map
+  cases c <;> first | (simp [Spec.getV] at hq; done) | skip
+  rename_i k v items
+  simp only [Spec.getV] at hq
+  by_cases hc' : (goodMap k items && isKey k a) = true
+  · simp only [hc', if_true, Res.ok.injEq] at hq
+    subst hq
+    rw [Bool.and_eq_true] at hc'
+    cases b <;> first | (exact absurd rfl h2) | skip
+    · rename_i y
+      simp only [Spec.updateV] at h2 ⊢
+      by_cases hc : (goodMap k items && isKey k a && typeOf y == v) = true
+      · simp only [hc, if_true, rbind_ok']
+        simp only [Impl.execGetAndUpdate, mapUpdate_eq hc'.1 hc'.2 (some y), rbind_ok']
+        cases _root_.Spec.Coll.findKV keyLt a (Spec.kvs items) <;> rfl
+      · simp [hc] at h2
+    · rename_i v'
+      simp only [Spec.updateV] at h2 ⊢
+      by_cases hc : (goodMap k items && isKey k a && v' == v) = true
+      · simp only [hc, if_true, rbind_ok']
+        simp only [Impl.execGetAndUpdate, mapUpdate_eq hc'.1 hc'.2 none, rbind_ok']
+        cases _root_.Spec.Coll.findKV keyLt a (Spec.kvs items) <;> rfl
+      · simp [hc] at h2
+  · simp [hc'] at hq
 
 end Interp
